@@ -46,6 +46,8 @@ def gen_config(r, index=None, subset_cycle=False, force_mode=None):
     pages = []
     for pid in ids:
         nl = r.choice([0, 1, 1, 2, 2, 3])
+        if r.random() < 0.04:
+            nl = r.randint(9, 14)          # a page with many lines
         lines = []
         for j in range(nl):
             b = r.randint(2, 8)
@@ -315,8 +317,11 @@ def execute(plan, world_cls=PfWorld):
             # the detected lines are not known in advance: a page's crops are those of the uninterrupted run
             for p in ids:
                 exp[p]['lines'] = []
+            other_outputs = {f for p in ids for kind, fs in exp[p].items() if kind != 'lines' for f in fs}
             for f in sorted(gt_snap):
                 ld = world.dirname('lines')
+                if f in other_outputs:
+                    continue        # shared folder: 'scan-7.jpg' is the render of page scan-7, not a crop of page scan
                 if f.startswith(ld + '/') and f.count('/') == ld.count('/') + 1:
                     owners = [p for p in ids if f.startswith('%s/%s-' % (ld, p))]
                     if owners:          # ids may be prefixes of each other (scan-7, scan-7-2): the longest one owns the crop
